@@ -43,6 +43,22 @@ def loop_nests(depth_max):
 
     labels = ["A", "B", "C"]
     for depth in range(1, depth_max + 1):
+        if depth >= 2:
+            # one label on every level: a labelled break / continue names the nearest enclosing loop so labelled
+            for kindsel in itertools.product(kinds, repeat=depth):
+                for what in ("break", "continue"):
+                    for pos in (0, 1):
+                        for outer_what in (None, "break", "continue"):
+                            lvl = depth - 1
+                            body = ([mark("m%d" % lvl)] if pos == 1 else []) + ctrl_stmt(lvl, (what, "A"), 2) + \
+                                   ([mark("m%d" % lvl)] if pos == 0 else []) + [mark("e%d" % lvl)]
+                            stmts = mk_loop(lvl, kindsel[lvl], "A", body)
+                            for l in range(depth - 2, -1, -1):
+                                extra = ctrl_stmt(l, (outer_what, "A"), 1) if (l == depth - 2 and outer_what) else []
+                                body = [mark("m%d" % l)] + stmts + extra + [mark("e%d" % l)]
+                                stmts = mk_loop(l, kindsel[l], "A", body)
+                            yield ("loops d=%d %s same-label inner=%s@%d outer=%s" % (depth, "/".join(kindsel), what, pos, outer_what),
+                                   [OBS_DECL] + stmts + [mark("done")])
         for kindsel in itertools.product(kinds, repeat=depth):
             for labsel in itertools.product([True, False], repeat=depth):
                 avail = [""] + [labels[i] for i in range(depth) if labsel[i]]
@@ -109,7 +125,11 @@ def value_positions():
     bodies = [("value", lambda n: [expr(I(n))]), ("let", lambda n: [let("t", I(n))]), ("empty", lambda n: []),
               ("stmts", lambda n: [obs(I(-n)), expr(I(n))]), ("assign", lambda n: [expr(asg(ident("acc"), I(n)))]),
               ("nested-if", lambda n: [expr(if_(lit(vbool(True)), [expr(I(n))], [expr(I(0))]))]),
-              ("obs-only", lambda n: [obs(I(n))])]
+              ("obs-only", lambda n: [obs(I(n))]),
+              # a bare nested block as last statement: the branch has no value of its own (null), and exactly one
+              # value still comes out of the if / match
+              ("nested-block", lambda n: [block([obs(I(n)), expr(I(n))])]),
+              ("let-then-nested-block", lambda n: [let("t", I(n)), block([expr(bin_("+", ident("t"), I(1)))])])]
     holders = [("array-middle", lambda e: obs(arr(I(10), e, I(30)))),
                ("call-argument", lambda e: obs(call("snd", I(10), e))),
                ("operand", lambda e: obs(arr(bin_("==", e, lit(vnull())), I(30)))),
@@ -118,7 +138,7 @@ def value_positions():
     out = []
     pre = [OBS_DECL, fndef("snd", ["a", "b"], [expr(ident("b"))]), let("acc", I(0))]
     for b1n, b1 in bodies:
-        for b2n, b2 in bodies[:4]:
+        for b2n, b2 in bodies[:4] + bodies[-2:-1]:
             for hn, hold in holders:
                 for taken in (0, 1, 2):
                     # match with the first / second / no arm taken
